@@ -334,6 +334,7 @@ def c04(tier, seed):
     ck.require("sim.app_deliveries", 100)
     ck.require("sim.pubrels_delivered", 50)
     ck.require("sim.acked_inbound_messages", 100)
+    ck.require("sim.inbound_publishes_exactly_at_client_limit", 20)
     return ck.finish()
 
 
